@@ -89,7 +89,7 @@ impl Store {
 impl Store {
     fn top_ixs(&mut self) -> (ret: Vec<usize>)
         // C12 / C10: the answer is the ranking of the current records under the current limit — whatever happened before;
-        requires old(self).coherent(),
+        requires old(self).coherent(), old(self).limit <= 0x7fff_ffff_ffff_ffff,   // the adapter computes limit * 2 (C01: limits are at most 2^16)
         ensures final(self).coherent(), // [C10 C12]
             ret@ == spec_top(final(self).records@, final(self).limit), // [C10 C12]
             // C12 / C06: min(limit, number of records) positions of existing records, none twice
